@@ -42,6 +42,7 @@ type Statement struct {
 type Checkpoint int
 
 func (s *Statement) Checkpoint() Checkpoint {
+	verifStatementEvent("checkpoint", s, len(s.operations))
 	return Checkpoint(len(s.operations))
 }
 
@@ -57,11 +58,13 @@ func (s *Statement) Rollback(cp Checkpoint) error {
 	}
 
 	s.operations = s.operations[:cp]
+	verifStatementEvent("rollback", s, int(cp))
 	return nil
 }
 
 func (s *Statement) Evict(reclaimeeTask *pod_info.PodInfo, message string,
 	evictionMetadata eviction_info.EvictionMetadata) error {
+	verifStatementEvent("operation", s, len(s.operations))
 	// Update status in session
 	job, jobFound := s.ssn.ClusterInfo.PodGroupInfos[reclaimeeTask.Job]
 	if !jobFound {
@@ -216,6 +219,7 @@ func sameGpuGroups(a, b []string) bool {
 }
 
 func (s *Statement) Pipeline(task *pod_info.PodInfo, hostname string, updateTaskIfExistsOnNode bool) error {
+	verifStatementEvent("operation", s, len(s.operations))
 	// Only update status in session
 	job, foundJob := s.ssn.ClusterInfo.PodGroupInfos[task.Job]
 	node, foundNode := s.ssn.ClusterInfo.Nodes[hostname]
@@ -320,6 +324,7 @@ func (s *Statement) Pipeline(task *pod_info.PodInfo, hostname string, updateTask
 }
 
 func (s *Statement) Allocate(task *pod_info.PodInfo, hostname string) error {
+	verifStatementEvent("operation", s, len(s.operations))
 	node := s.ssn.ClusterInfo.Nodes[hostname]
 
 	// Only update status in session
@@ -557,11 +562,13 @@ func (s *Statement) Discard() {
 	}
 
 	log.InfraLogger.V(6).Infof("Discarding operations ...")
+	verifStatementEvent("discard-begin", s, 0)
 	for i := len(s.operations) - 1; i >= 0; i-- {
 		_ = s.undoOperation(i)
 	}
 
 	s.clearOperations()
+	verifStatementEvent("discard-end", s, 0)
 }
 
 func (s *Statement) Commit() error {
@@ -573,6 +580,8 @@ func (s *Statement) Commit() error {
 	var err error
 
 	log.InfraLogger.V(4).Infof("Committing operations ...")
+	verifStatementEvent("commit-begin", s, 0)
+	defer verifStatementEvent("commit-end", s, 0)
 	for i, op := range s.operations {
 		if !s.operationValid(i) {
 			continue
